@@ -56,11 +56,10 @@ def run(pid, tier):
         rec = json.loads(line)
         c = rec["case"]
         if "exc" in rec:
-            # the helpers' own assertions reject some inputs (e.g. a re-timing that cannot stay non-negative); a refusal
-            # is not a wrong hand-off, so it is counted, not judged -- except for FillMin, which must accept every input
+            # every generated input lies in the helpers' domain (non-negative series; for the bump, charges within their
+            # demand): a valid hand-off exists for each, so a refusal (the helpers' own assertions firing) is a wrong hand-off
             out.extra["refused_" + c["k"]] = out.extra.get("refused_" + c["k"], 0) + 1
-            if c["k"] == "FillMin":
-                out.violation("generated:FillMin:exception", "calculate_human_consumption_for_min_needs raised %s" % rec["exc"], rec)
+            out.violation("generated:%s:exception" % c["k"], "the %s helper raised %s on an input of its domain" % (c["k"], rec["exc"]), rec)
             continue
         if c["k"] == "FillMin":
             ev = fill_events(c, rec["out"], c["kd"], c["pf1"], c["T"])
